@@ -53,11 +53,29 @@ func (s stamp) nanos() *big.Int {
 	return n.Add(n, big.NewInt(s.Nsec))
 }
 
+// timeRepr selects how an instant is represented as a time.Time (drawn per case): the same instant can carry
+// different locations, and the zero instant has several representations besides the literal time.Time{}.
+// The property speaks about instants, so the representation must not matter.
+var timeRepr int
+
+var fixedZone = time.FixedZone("verif+0130", 90*60)
+
 func (s stamp) time() time.Time {
-	if s == zeroStamp {
-		return time.Time{}
+	var tm time.Time
+	if s == zeroStamp && timeRepr != 3 {
+		tm = time.Time{}
+	} else {
+		tm = time.Unix(s.Sec, s.Nsec)
 	}
-	return time.Unix(s.Sec, s.Nsec)
+	switch timeRepr {
+	case 1:
+		return tm.Local()
+	case 2:
+		return tm.In(fixedZone)
+	case 3:
+		return tm.UTC().In(fixedZone)
+	}
+	return tm
 }
 
 func (s stamp) String() string { return fmt.Sprintf("(%ds,%dns)", s.Sec, s.Nsec) }
@@ -226,6 +244,7 @@ func (c syncCase) String() string {
 var stSync = stats.New("synced_to_emit")
 
 func propSyncedToEmit(t *rapid.T) {
+	timeRepr = rapid.IntRange(0, 3).Draw(t, "timeRepresentation")
 	var c syncCase
 	c.Now = genNow().Draw(t, "now")
 	negative := rapid.IntRange(0, 4).Draw(t, "negativeThreshold") == 0
@@ -350,6 +369,7 @@ func TestC21SyncedToEmit(t *testing.T) { rapid.Check(t, propSyncedToEmit) }
 var stPar = stats.New("parallel_instance")
 
 func propParallelInstance(t *rapid.T) {
+	timeRepr = rapid.IntRange(0, 3).Draw(t, "timeRepresentation")
 	var c syncCase
 	c.Now = genNow().Draw(t, "now")
 	negative := rapid.IntRange(0, 4).Draw(t, "negativeThreshold") == 0
@@ -436,6 +456,7 @@ func TestC21ParallelInstance(t *testing.T) { rapid.Check(t, propParallelInstance
 // TestC21Regression pins the witness of the repaired defect (DESIGN.md §5, F6) without rapid:
 // a timestamp 2^63 ns or more ahead of Now must not permit emission.
 func TestC21Regression(t *testing.T) {
+	timeRepr = 0
 	now := stamp{Sec: 1700000000}
 	old := stampFromNanos(new(big.Int).Sub(now.nanos(), big.NewInt(7200000000000)))
 	future := stamp{Sec: now.Sec + 9300000000} // ~294.7 years ahead
